@@ -409,6 +409,25 @@ def totals_gate(ctx, r, prefix="totals"):
                 "%s:%s" % (fit.file, fit.line))
         s_ = " ".join(sig(e) for e in adds)
         r.check(".fee" in s_ and ".value" in s_, prefix + "/gate/terms", "it accounts for every output value and the fee", "output_totals_fit sums %s" % s_[:200], "%s:%s" % (fit.file, fit.line))
+        # the verdict of the gate: any of its sums overflowing ⇒ false, none overflowing ⇒ true (decided by forcing the presence tests of every checked_add)
+        absent, present = q.presence_tests(fit, lambda sx: "checked_add" in sx)
+        if absent:
+            v0, _f = q.ret_value_under(fit, absent)
+            v1, _f = q.ret_value_under(fit, present)
+            if v0 in (("c", 0), ("c", 1)) and v1 in (("c", 0), ("c", 1)):
+                r.check(v0 == ("c", 0), prefix + "/gate/overflow=>reject", "a sum that does not fit makes the gate answer false", "with a sum overflowing the gate still answers true: the transaction goes on to total_outputs()", "%s:%s" % (fit.file, fit.line))
+                r.check(v1 == ("c", 1), prefix + "/gate/fits=>pass", "totals that fit pass the gate", "the gate refuses transactions whose totals fit", "%s:%s" % (fit.file, fit.line))
+            else:
+                # not one constant: some path answers true although every sum was taken to overflow — decided if such a path returns the literal `true`
+                _v, f0 = q.ret_value_under(fit, absent)
+                lit_true = [x for x in q.ret_assignments(fit) if x[0] in f0.reach and q.const_val(x[2]) in (1, True)]
+                if lit_true:
+                    r.violation(prefix + "/gate/overflow=>reject", "with every sum overflowing the gate can still answer true: such a transaction goes on to total_outputs()", fit.where(lit_true[0][0]))
+                else:
+                    r.undecided(prefix + "/gate/overflow=>reject", "the gate's answer under overflow is not a constant (%s / %s)" % (v0, v1))
+        # the fee is added to the MEL total (total_outputs adds it there), and a denomination's running total starts at zero
+        fee_adds = [e for e in adds if ".fee" in sig(e)]
+        r.check(all("Denom::Mel" in sig(e) for e in fee_adds) and bool(fee_adds), prefix + "/gate/fee-on-mel", "the fee is added to the MEL total", "the fee is added to %s" % [sig(e)[:120] for e in fee_adds], "%s:%s" % (fit.file, fit.line))
     impl = ctx.body(AP + "apply_tx_batch_impl", r)
     lrc = q.call_exprs(impl, "load_relevant_coins")
     users = q.effect_sites(prog, impl, "check_tx_validity") + q.effect_sites(prog, impl, "create_next_state")
@@ -423,6 +442,32 @@ def totals_gate(ctx, r, prefix="totals"):
 def r9_totals_fit(ctx):
     r = ctx.rule("R9", "output totals cannot wrap: a batch member whose per-denomination output total (plus fee) does not fit in u128 is rejected before total_outputs() is ever called on it")
     totals_gate(ctx, r)
+
+
+def r10_no_wraparound(ctx):
+    """Amounts (coin values, fee pool, tips, pool totals, voting power) are 128-bit and, wherever Faucet transactions are admitted, not bounded by a supply
+    (D20).  The code adds them with saturating or checked operations; a wrapping operation turns a total past 2^128 into a small number — a fee pool that
+    loses 2^128, a vote tally that wraps below the threshold, a pool total that prices a swap against almost nothing.  Expected count: zero sites in the two
+    state-machine crates (the interpreter crate is exempt: MelVM arithmetic is specified as wrapping)."""
+    r = ctx.rule("R10", "no wrap-around arithmetic (wrapping_*, Wrapping<T>) on amounts anywhere in melstf / tip911-stakeset", positional=False)
+    n, scanned = 0, 0
+    for b in ctx.prog.bodies:
+        if b.kind == "Promoted" or b.crate not in ("melstf", "tip911_stakeset"):
+            continue
+        scanned += 1
+        for bi, t in b.calls():
+            nm = mir.callee_name(t)
+            last = nm.split("::")[-1]
+            if (nm.startswith("core::num::<impl ") and last.startswith("wrapping_") and last not in ("wrapping_shl", "wrapping_shr")) or "num::Wrapping" in nm:
+                if t.get("exp"):
+                    continue
+                n += 1
+                host = b.nname.split("::{closure")[0].split("::")[-1]
+                r.violation("wrap@%s|%s" % (host, last), "%s in %s: a total past 2^128 wraps around to a small number instead of stopping at the top of the range (%s)"
+                            % (last, b.nname, sig(b.rec_call(t, bi))[:160]), b.where(bi))
+    r.floor("bodies scanned", scanned, 150)
+    if n == 0:
+        r.ok("wrap/none", "no wrapping arithmetic in the state-machine crates (%d bodies)" % scanned)
 
 
 def shared(ctx):
@@ -442,4 +487,4 @@ def shared(ctx):
     core.import_rules(ctx, [c06.r5_activation_table], "X06")          # the SYM subsidy is minted from TIP-909 on, split by TIP-909a
 
 
-RULES = [r1_gate_coverage, r2_exemption_table, r3_equality, r4_input_sums, r5_issuance_confinement, r6_floor, r7a, r8_subsidy_peg, r9_totals_fit, shared]
+RULES = [r1_gate_coverage, r2_exemption_table, r3_equality, r4_input_sums, r5_issuance_confinement, r6_floor, r7a, r8_subsidy_peg, r9_totals_fit, r10_no_wraparound, shared]
